@@ -589,6 +589,15 @@ def _s_bor(eng, st, a, b):
   return bitop(eng, st, ast.BitOr(), a, b, None)
 
 
+@specfn("bxor")
+def _s_bxor(eng, st, a, b):
+  """a ^ b (same term as the engine produces for the operator)."""
+  a, b = eng.need_int(st, a), eng.need_int(st, b)
+  if isinstance(a, int) and isinstance(b, int):
+    return a ^ b
+  return bitop(eng, st, ast.BitXor(), a, b, None)
+
+
 @specfn("invert")
 def _s_invert(eng, st, x, m):
   """gmpy2.invert(x, m) as a term (same uninterpreted function as the engine uses for the call)."""
